@@ -465,8 +465,15 @@ gen0LazyValue(Foam var, Syme syme)
 	Foam 	foam;
 	FoamTag type = gen0Type(symeType(syme), NULL);
 
-	if (symeIsImport(syme) && tfIsLibrary(symeExporter(syme)))
-		return foamNewCast(type, var);
+	if (symeIsImport(syme)) {
+		/* As in gen0InitImport: what an archive exports is
+		 * exported by one of its member libraries. */
+		TForm exporter = symeExporter(syme);
+		if (tfIsArchive(exporter))
+			exporter = tfArchiveLib(exporter, symeExportingSyme(syme));
+		if (tfIsLibrary(exporter))
+			return foamNewCast(type, var);
+	}
 
 	foam = gen0BuiltinCCall(FOAM_Word, 
 				"lazyForceImport",
